@@ -302,8 +302,9 @@ Record sparr := mkSA { sa_items : list (N * ival); sa_length : N; sa_pvc : Z; sa
 Inductive iarr := ID (d : darr) | IS (s : sparr).
 
 Definition nlen {A} (l : list A) : N := N.of_nat (length l).
+(* [N.to_nat] is only ever applied to numbers bounded by the length of a list (unary nat!) *)
 Definition dnth (vs : list (option ival)) (i : N) : option ival :=
-  match nth_error vs (N.to_nat i) with Some x => x | None => None end.
+  if i <? nlen vs then match nth_error vs (N.to_nat i) with Some x => x | None => None end else None.
 Fixpoint lupd {A} (l : list A) (i : nat) (x : A) : list A :=
   match l, i with
   | [], _ => []
@@ -327,7 +328,7 @@ Definition d_setLengthInt (a : darr) (l : N) : darr * bool :=
   let vs := da_values a in
   let '(l', ret, pvc') :=
     if (l <=? da_length a) && (0 <? da_pvc a)%Z
-    then d_scan (rev (skipn (N.to_nat l) vs)) (nlen vs - 1) l (da_pvc a)
+    then d_scan (rev (skipn (N.to_nat (N.min l (nlen vs))) vs)) (nlen vs - 1) l (da_pvc a)
     else (l, true, da_pvc a) in
   let vs' := if l' <=? nlen vs then firstn (N.to_nat l') vs else vs in
   (mkDA vs' l' (da_objCount a) pvc' (da_lw a) (da_base a), ret).
@@ -368,7 +369,7 @@ Definition sa_add (s : sparr) (idx : N) (x : ival) : sparr :=
   mkSA (ains (sa_items s) idx x) (sa_length s) (sa_pvc s) (sa_lw s) (sa_base s).
 
 Definition d_put (a : darr) (idx : N) (x : option ival) : darr :=
-  mkDA (lupd (da_values a) (N.to_nat idx) x) (da_length a) (da_objCount a) (da_pvc a) (da_lw a) (da_base a).
+  mkDA (if idx <? nlen (da_values a) then lupd (da_values a) (N.to_nat idx) x else da_values a) (da_length a) (da_objCount a) (da_pvc a) (da_lw a) (da_base a).
 Definition d_cnt (a : darr) (oc pv : Z) : darr :=
   mkDA (da_values a) (da_length a) (da_objCount a + oc)%Z (da_pvc a + pv)%Z (da_lw a) (da_base a).
 
@@ -876,6 +877,136 @@ End Algo.
 
 Definition primS : prims sarr := mkP sarr s_len s_get s_has s_set s_delete s_setlen.
 Definition primI : prims iarr := mkP iarr i_len i_get i_has i_set i_delete i_setlen.
+
+(* ------------------------------------------------------------------------------------------- *)
+(* I : the fast paths of builtin_array.go, taken when checkStdArrayObj (builtin_array.go:1423) holds.
+   (checkStdArrayObjWithProto never holds: Array.prototype is a templatedObject, so shift/unshift/slice
+   always run the generic code.) *)
+Definition d_guard (d : darr) : bool :=
+  (da_pvc d =? 0)%Z && (da_length d =? nlen (da_values d)) && (da_objCount d =? Z.of_N (da_length d))%Z.
+Definition d_with_values (d : darr) vs :=
+  mkDA vs (da_length d) (da_objCount d) (da_pvc d) (da_lw d) (da_base d).
+Definition d_with_length (d : darr) l :=
+  mkDA (da_values d) l (da_objCount d) (da_pvc d) (da_lw d) (da_base d).
+
+(* arrayproto_pop (builtin_array.go:130): no guard, bails out on a hole or a valueProperty *)
+Definition i_pop (a : iarr) : iarr * result :=
+  match a with
+  | ID d =>
+      let l := da_length d in
+      if l =? 0 then (if da_lw d then (a, RV vundef) else (a, RErr 1)) else
+      match dnth (da_values d) (l - 1) with
+      | Some (IPlain v) =>
+          let d1 := d_with_values d (firstn (N.to_nat (l - 1)) (da_values d)) in
+          if da_lw d then (ID (d_with_length d1 (l - 1)), RV v) else (ID d1, RErr 1)
+      | _ => a_pop primI a
+      end
+  | _ => a_pop primI a
+  end.
+
+Definition i_reverse (a : iarr) : iarr * result :=
+  match a with
+  | ID d => if d_guard d then (ID (d_with_values d (rev (da_values d))), RU) else a_reverse primI a
+  | _ => a_reverse primI a
+  end.
+
+Fixpoint lfill {A} (l : list A) (from n : nat) (x : A) : list A :=
+  match l with
+  | [] => []
+  | y :: r => match from with
+              | S f => y :: lfill r f n x
+              | O => match n with O => l | S n' => x :: lfill r O n' x end
+              end
+  end.
+Definition i_fill (a : iarr) (v : val) (st : Z) (en : option Z) : iarr * result :=
+  match a with
+  | ID d => if d_guard d then
+              let len := da_length d in
+              let k := rel st len in let final := rel_end en len in
+              (ID (d_with_values d (lfill (da_values d) (N.to_nat k) (N.to_nat (final - k)) (Some (IPlain v)))), RU)
+            else a_fill primI a v st en
+  | _ => a_fill primI a v st en
+  end.
+
+Definition i_copyWithin (a : iarr) (target start : Z) (en : option Z) : iarr * result :=
+  match a with
+  | ID d => if d_guard d then
+              let len := da_length d in let vs := da_values d in
+              let to := rel target len in let from := rel start len in let final := rel_end en len in
+              let count := N.min (final - from) (len - to) in
+              if 0 <? count then
+                (ID (d_with_values d (firstn (N.to_nat to) vs ++ firstn (N.to_nat count) (skipn (N.to_nat from) vs)
+                                      ++ skipn (N.to_nat (to + count)) vs)), RU)
+              else (a, RU)
+            else a_copyWithin primI a target start en
+  | _ => a_copyWithin primI a target start en
+  end.
+
+Fixpoint find_from (vs : list (option ival)) (i : N) (x : val) : option N :=
+  match vs with
+  | [] => None
+  | Some (IPlain y) :: r => if y =? x then Some i else find_from r (i + 1) x
+  | _ :: r => find_from r (i + 1) x
+  end.
+Definition i_indexOf (a : iarr) (x : val) (from : Z) : result :=
+  match a with
+  | ID d => if d_guard d then
+              let len := da_length d in
+              if len =? 0 then RNone else
+              if (Z.of_N len <=? from)%Z then RNone else
+              let n := if (from <? 0)%Z then Z.to_N (Z.max (Z.of_N len + from) 0) else Z.to_N from in
+              match find_from (skipn (N.to_nat n) (da_values d)) n x with Some k => RV k | None => RNone end
+            else a_indexOf primI a x from
+  | _ => a_indexOf primI a x from
+  end.
+Definition i_includes (a : iarr) (x : val) (from : Z) : result :=
+  match a with
+  | ID d => if d_guard d then
+              let len := da_length d in
+              if len =? 0 then RB false else
+              if (Z.of_N len <=? from)%Z then RB false else
+              let n := if (from <? 0)%Z then Z.to_N (Z.max (Z.of_N len + from) 0) else Z.to_N from in
+              RB (isSome (find_from (skipn (N.to_nat n) (da_values d)) n x))
+            else a_includes primI a x from
+  | _ => a_includes primI a x from
+  end.
+
+(* sort.Stable over the slots with sortCompare (builtin_array.go:1763): nil slots last, undefined before them *)
+Definition plains (vs : list (option ival)) : list val :=
+  flat_map (fun x => match x with Some y => [iv_getv y] | None => [] end) vs.
+Definition i_sort_with (a : iarr) (sorted : list val) : iarr * result :=
+  match a with
+  | ID d => if d_guard d then
+              (ID (d_with_values d (map (fun v => Some (IPlain v)) sorted ++
+                                    repeat None (length (da_values d) - length sorted))), RU)
+            else a_sort_with primI a sorted
+  | _ => a_sort_with primI a sorted
+  end.
+Definition i_sort (a : iarr) (cmp : val -> val -> Z) : iarr * result :=
+  match a with
+  | ID d => if d_guard d then i_sort_with a (isort (sort_le cmp) (plains (da_values d))) else a_sort primI a cmp
+  | _ => a_sort primI a cmp
+  end.
+
+(* arrayproto_splice (builtin_array.go:431), source fast path; the result array is filled with
+   createDataPropertyOrThrow, which turns a nil slot into a present undefined *)
+Definition i_splice (a : iarr) (st : Z) (dc : option Z) (items : list val) : iarr * result :=
+  match a with
+  | ID d => if d_guard d then
+              let len := da_length d in let vs := da_values d in
+              let start := rel st len in
+              let del := match dc with None => len - start | Some z => N.min (Z.to_N (Z.max z 0)) (len - start) end in
+              let ic := nlen items in
+              let removed := map (fun x => match x with Some y => Some (iv_getv y) | None => Some vundef end)
+                                 (firstn (N.to_nat del) (skipn (N.to_nat start) vs)) in
+              let vs' := firstn (N.to_nat start) vs ++ map (fun v => Some (IPlain v)) items
+                         ++ skipn (N.to_nat (start + del)) vs in
+              let d1 := mkDA vs' (da_length d) (Z.of_N (nlen vs')) (da_pvc d) (da_lw d) (da_base d) in
+              let '(a2, e) := i_setlen (ID d1) (len - del + ic) in
+              if e =? 0 then (a2, RA removed) else (a2, RErr e)
+            else a_splice primI a st dc items
+  | _ => a_splice primI a st dc items
+  end.
 
 (* ------------------------------------------------------------------------------------------- *)
 (* the verified sort validator (see Proofs.v: check_sort_sound) *)
